@@ -243,6 +243,11 @@ HARNESSES = [
     H('U-TOML', 'toml', 'toml_ensure_one_use_contract', 'complete', ['C08'], bounds='both states', fns=['toml::Output::ensure_one_use'], timeout=300),
     H('U-TOML', 'toml', 'toml_second_use_refused_before_any_work', 'complete', ['C08'], bounds='any history with used == true; 4 deserializer behaviours',
       fns=['toml::Output::transcode_from', 'toml::Output::ensure_one_use'], timeout=900),
+    H('U-TOML', 'toml', 'toml_value_path_second_use_refused', 'complete', ['C08'], bounds='any history with used == true; value-based entry point (JSON slice input)',
+      fns=['toml::Output::transcode_value', 'toml::Output::ensure_one_use'], timeout=2400),
+    H('U-TOML', 'toml', 'toml_value_path_first_use_marks_used', 'complete', ['C08'], tier='thorough', bounds='first use through transcode_value, boolean root',
+      fns=['toml::Output::transcode_value', 'toml::Output::output_value', 'toml::Output::ensure_one_use'], timeout=3600,
+      assumes=['runs the real toml::Value::try_from on one scalar (~600 s)']),
     H('U-TOML', 'toml', 'toml_bool_root_refused_without_write', 'complete', ['C08', 'C11'], bounds='boolean root, any payload',
       fns=['toml::Output::transcode_from', 'toml::Output::output_value', 'toml::Output::ensure_one_use'], timeout=900,
       assumes=['runs the real toml::Value::deserialize on one scalar event; toml::to_string_pretty stubbed (must not be reached)']),
@@ -364,7 +369,7 @@ PROPERTIES = {
                     'non-table roots (every variant, any payload) refused with zero writes; the use mark is set before deserialization; table root => exactly one write_all of exactly the '
                     'serializer\'s document, zero writes when the serializer refuses, writer failure surfaces.',
         assumptions=['toml::Value::{deserialize, try_from} reject null/unit and out-of-range integers', 'toml::to_string_pretty emits one valid document that reads back as the value'],
-        not_covered=['validity of the emitted document (toml crate)', 'transcode_value path beyond ensure_one_use (toml::Value::try_from)']),
+        not_covered=['validity of the emitted document (toml crate)', 'toml::Value::try_from on composite values (transcode_value path)']),
     'C09': dict(
         explanation='Rewindable handle: representation invariant captured == stream[..delivered] preserved by every CaptureReader operation from any valid state against a source that '
                     'short-reads / fails / EOFs at will (unbounded history); borrow_mut always rewinds; detect_format returns the first Ok(true) in order MessagePack, JSON, YAML, TOML, '
